@@ -223,6 +223,9 @@ type C16ConvCase struct {
 	AtCall    int    `json:"atCall"`        // number given to Call (>= 1)
 	Raw       bool   `json:"raw,omitempty"` // hand the call-time converter over as a plain Go function
 	OtherConv bool   `json:"otherConv,omitempty"`
+	// Gen: every converter (defaults and call-time ones) is not supplied but
+	// EMITTED by a converter generator of its own, for values of type From
+	Gen bool `json:"gen,omitempty"`
 }
 
 func evalC16Conv(c *engine.Case) engine.Verdict {
@@ -243,6 +246,20 @@ func evalC16Conv(c *engine.Case) engine.Verdict {
 	}
 	w := engine.NewWorld()
 	var dargs, cargs []argmapper.Arg
+	asOption := func(f *argmapper.Func) argmapper.Arg {
+		if !x.Gen {
+			return argmapper.ConverterFunc(f)
+		}
+		return argmapper.ConverterGen(func(val argmapper.Value) (*argmapper.Func, error) {
+			if val.Type != engine.Types[x.From] {
+				return nil, nil
+			}
+			return f, nil
+		})
+	}
+	if x.Gen {
+		v.Class("converter-override-through-generators")
+	}
 	id := 0
 	for i := 0; i < x.Defaults; i++ {
 		id++
@@ -251,13 +268,13 @@ func evalC16Conv(c *engine.Case) engine.Verdict {
 			v.Failf("setup: %v", err)
 			return v
 		}
-		dargs = append(dargs, argmapper.ConverterFunc(f))
+		dargs = append(dargs, asOption(f))
 	}
 	firstCall := id + 1
 	for i := 0; i < x.AtCall; i++ {
 		id++
 		fs := mk(id)
-		if x.Raw {
+		if x.Raw && !x.Gen {
 			cargs = append(cargs, argmapper.Converter(w.MakeGoFunc(fs)))
 			w.RegisterSpec(fs)
 			continue
@@ -267,7 +284,7 @@ func evalC16Conv(c *engine.Case) engine.Verdict {
 			v.Failf("setup: %v", err)
 			return v
 		}
-		cargs = append(cargs, argmapper.ConverterFunc(f))
+		cargs = append(cargs, asOption(f))
 	}
 	if x.OtherConv {
 		// an unrelated converter of another type, as a default
@@ -313,7 +330,7 @@ func evalC16Conv(c *engine.Case) engine.Verdict {
 func genC16Conv(g engine.G) *engine.Case {
 	perm := rapidPerm(g, []int{0, 1, 2, 3, 4, 5})
 	x := C16ConvCase{From: perm[0], To: perm[1], InForm: engine.GenForm(g), OutForm: engine.GenForm(g),
-		Defaults: g.Int(0, 2), AtCall: g.Int(1, 2), Raw: g.Pct(30), OtherConv: g.Pct(30)}
+		Defaults: g.Int(0, 2), AtCall: g.Int(1, 2), Raw: g.Pct(30), OtherConv: g.Pct(30), Gen: g.Pct(30)}
 	if g.Pct(40) {
 		x.NamedOut = true
 		x.OutForm = engine.Pick(g, []string{engine.FormStruct, engine.FormPtr})
